@@ -132,7 +132,7 @@ Url::Url(const String& url)
 		}
 	}
 	host = url.substring(hoststart, hostend);
-	port = (portstart == 0)? 0 : (int)url.substring(portstart, pathstart);
+	port = (portstart == 0 || portstart > pathstart)? 0 : (int)url.substring(portstart, pathstart);
 }
 
 struct HttpSinkArray : public HttpSink
